@@ -157,3 +157,79 @@ def c01(ctx):
     design = [("DMapKeyMC", "DMapKey_quick.cfg" if quick else "DMapKey_thorough.cfg", {"timeout": 1500})]
     return reg_run(ctx, "TestC01", "c01.ndjson", "c01.summary.json",
                    {"VERIF_ROUNDS": 8 if quick else 150}, design, rule, "per-key linearizability")
+
+
+def entry_tags(head, evs, line):
+    """Call-site tags of a rejected history: which entry paths its operations used."""
+    paths = sorted(set(e.get("path", "") for e in evs if e.get("t") == "inv"))
+    members = sorted(set(p.split("@")[1] for p in paths if "@" in p and not p.startswith("cc@")))
+    ops = sorted(set(e.get("op", "") for e in evs if e.get("t") == "inv"))
+    return {"paths": ",".join(paths), "distinct_entry_members": len(members), "ops": ",".join(ops)}
+
+
+@register("C07")
+def c07(ctx):
+    quick = ctx.tier == "quick"
+    rule = ("2-4 concurrent callers x 4-9 Incr/Decr/IncrByFloat/GetPut calls on one key per kind, every caller on a random entry path "
+            "(or all on the same one), N=3, R in {1,2}, plus a final Get; non-trivial = two calls on the key overlap in time; "
+            "IncrByFloat deltas are dyadic so the expected sum is exact")
+    return reg_run(ctx, "TestC07", "c07.ndjson", "c07.summary.json", {"VERIF_ROUNDS": 12 if quick else 300},
+                   [], rule, "atomic read-modify-write", tags_of=entry_tags)
+
+
+def ttl_tags(head, evs, line):
+    """Input-class tags of a rejected expiry history."""
+    t = entry_tags(head, evs, line)
+    invs = [e for e in evs if e.get("t") == "inv"]
+    setup = invs[0] if invs else {}
+    t["setup"] = "%s%s%s" % (setup.get("op", ""), "+" + setup["mode"] if setup.get("mode") else "",
+                             "+NX" if setup.get("nx") else "+XX" if setup.get("xx") else "")
+    # the operation whose reply was rejected
+    rej = evs[line - 2] if 0 <= line - 2 < len(evs) else {}
+    c = rej.get("c")
+    op = None
+    for e in evs[:line - 1]:
+        if e.get("t") == "inv" and e.get("c") == c:
+            op = e
+    if op:
+        t["rejected_op"] = op.get("op", "") + ("+NX" if op.get("nx") else "+XX" if op.get("xx") else "")
+        t["rejected_path_kind"] = op.get("path", "").split("@")[0]
+    return t
+
+
+@register("C09")
+def c09(ctx):
+    quick = ctx.tier == "quick"
+    ctx.assumptions += ["time is the process clock in whole milliseconds; an operation whose own interval overlaps the possible deadline "
+                        "interval is admitted both ways (no tuning constant)"]
+    rule = ("micro-scenarios per key: ttl set through EX/PX/EXAT/PXAT (optionally with NX), a later Expire/PExpire, or the DMap's default TTL; "
+            "2-4 follow-ups (Get, Put NX, Put XX, Expire, GetPut, plain Put, Incr) placed 55/30 ms before and 12/35/90 ms after the deadline, "
+            "a final read; random entry path per key; N=3, R in {1,2}; every history is non-trivial (operations fall within one ttl of the deadline)")
+    return reg_run(ctx, "TestC09", "c09.ndjson", "c09.summary.json",
+                   {"VERIF_ROUNDS": 2 if quick else 25, "VERIF_PER_BATCH": 40 if quick else 60},
+                   [], rule, "expiry visibility", tags_of=ttl_tags)
+
+
+@register("C08")
+def c08(ctx):
+    quick = ctx.tier == "quick"
+    ctx.assumptions += ["a Lock that fails must have found the key held at some instant of its waiting period; "
+                        "it must not return before its deadline minus 5 ms (timer granularity)"]
+    rule = ("per key 2-3 competing lockers on random entry paths (embedded on any member, cluster client, raw RESP), with/without timeout "
+            "(150/300 ms), waiter deadlines 100/250/500 ms, then hold+unlock, lease+unlock, expiry + stale token unlock/lease, double unlock; "
+            "forged tokens over RESP; a late comer after every timeout; non-trivial = two calls on the key overlap in time")
+    return reg_run(ctx, "TestC08", "c08.ndjson", "c08.summary.json",
+                   {"VERIF_ROUNDS": 2 if quick else 30, "VERIF_PER_BATCH": 20 if quick else 30},
+                   [], rule, "distributed lock", tags_of=ttl_tags)
+
+
+@register("C15")
+def c15(ctx):
+    quick = ctx.tier == "quick"
+    rule = ("every case = (operation, options, initial state absent/present/present-with-ttl, client path) on a key of its own: Put x {-,NX,XX} x "
+            "{-,EX,PX,EXAT,PXAT}, Expire/PExpire, GetPut, Incr, Decr, IncrByFloat, Lock (+Lease, Unlock) with and without timeout, Delete of 1-4 keys "
+            "spread over members; paths = embedded on each member, raw RESP to each member, cluster client, pipeline; each case's replies and follow-up "
+            "reads (value, reported ttl, visibility after the deadline) are judged against Register.tla, so paths are compared with the specification and "
+            "thereby with each other; every case is distinct and non-trivial (it changes or probes the stored entry)")
+    return reg_run(ctx, "TestC15", "c15.ndjson", "c15.summary.json", {"VERIF_FRACTION": 35 if quick else 100},
+                   [], rule, "path equivalence", tags_of=ttl_tags)
